@@ -70,6 +70,41 @@ func UnitsFor[K any](k *kinds.Kind[K], cfg *Config, seed uint64) []Unit {
 			res.Inc("units_big_history")
 		}})
 	}
+	if k.Staircase != nil {
+		for i := 0; i < max(1, cfg.Sweeps/2); i++ {
+			name := fmt.Sprintf("%s/staircase/%d", k.Name, i)
+			us = append(us, Unit{name, func(res *ev.Result) {
+				r := unitRng(seed, name)
+				s := NewSession(k, cfg, res, name)
+				keys := k.Staircase(r)
+				order := append([]K{}, keys...)
+				if r.Chance(1, 2) {
+					rng.Shuffle(r, order)
+				}
+				s.every = 1 << 30
+				for i, key := range order {
+					if s.Dead {
+						return
+					}
+					s.Insert(key)
+					if i%16 == 15 {
+						s.After(r)
+					}
+				}
+				if !s.Dead {
+					s.After(r) // the whole chain is stored: the deepest path
+				}
+				for i := 0; i < len(keys)/3 && !s.Dead; i++ {
+					s.Delete(rng.Pick(r, keys))
+				}
+				if !s.Dead {
+					s.After(r)
+					s.Final(r, keys)
+				}
+				res.Inc("units_staircase")
+			}})
+		}
+	}
 	if k.Fan2 != nil {
 		for i := 0; i < (cfg.Sweeps+1)/2; i++ {
 			name := fmt.Sprintf("%s/fan2/%d", k.Name, i)
